@@ -115,6 +115,14 @@ def output_tree(rng, depth=3, mark_p=(1, 3)):
     t = mark(t, 0)
     if rng.chance(1, 6):
         t.pop("$output", None)
+    if rng.chance(1, 4):
+        # nested selections around hidden material: the same subtree is then part of two outputs
+        hidden = rng.pick([[{"$output": False}, "h1", "h2"], ["h1", {"$output": False}], {"$output": False, "h": 1},
+                           [[{"$output": False}, 1], 2], {"deep": [{"$output": False}, "h"]}])
+        inner = {"$output": True, "name": "inner", "secret": hidden, "keep": rng.pick([1, [1, 2], {"k": "v"}])}
+        outer = rng.pick([{"$output": True, "name": "outer", "svc": inner}, [{"$output": True}, inner, "tail"],
+                          {"$output": True, "a": {"$output": True, "b": inner}}])
+        t[rng.pick(["n1", "n2"])] = outer
     return t
 
 
